@@ -390,6 +390,31 @@ def condOk : SExpr → Bool
   | .pw _ _ _ => true
   | _ => false
 
+def isTrueLit : SExpr → Bool
+  | .boolLit true => true
+  | _ => false
+
+/-- the Piecewise chain ends with a `(value, True)` piece -/
+def endsWithDefault : SExpr → Bool
+  | .pw _ c rest =>
+    match rest with
+    | .pwEnd => isTrueLit c
+    | _ => endsWithDefault rest
+  | _ => false
+
+/-- every Piecewise inside the expression has a final default piece (`inChain`: we are in the tail of a chain
+whose head was already checked) -/
+def pwComplete : Bool → SExpr → Bool
+  | inChain, .pw e c rest =>
+    pwComplete false e && pwComplete false c && pwComplete true rest && (inChain || endsWithDefault (.pw e c rest))
+  | _, .un _ a => pwComplete false a
+  | _, .bin _ a b => pwComplete false a && pwComplete false b
+  | _, .rel _ a b => pwComplete false a && pwComplete false b
+  | _, .and a b => pwComplete false a && pwComplete false b
+  | _, .app1 _ a => pwComplete false a
+  | _, .app2 _ a b => pwComplete false a && pwComplete false b
+  | _, _ => true
+
 def hasSym : SExpr → Bool
   | .num _ => false
   | .sym _ => true
@@ -424,8 +449,8 @@ def pwOf : List (SExpr × SExpr) → SExpr
 
 /-- `sympy.Piecewise(*pieces)` -/
 def mkPiecewise (pieces : List (SExpr × SExpr)) : TR SExpr :=
-  if pieces.all (fun p => condOk p.2) then .ok (pwOf pieces)
-  else .error (.refused "TypeError: Piecewise condition is not Boolean")
+  if pieces.all (fun p => condOk p.2 && pwComplete false p.2) then .ok (pwOf pieces)
+  else .error (.refused "TypeError: Piecewise condition is not Boolean / ValueError: it contains a Piecewise without default")
 
 /-- `sympy.Float(fn(*model_args))` for a `KNOWN_FNS` hit. -/
 def knownCall (T : Tables) (key : String) (sargs : List SExpr) : TR SExpr :=
